@@ -224,7 +224,10 @@ fn format_timestamp_function(
         Utc,
     };
 
-    let dt = DateTime::from_timestamp(timestamp as i64, 0)
+    // a value above i64::MAX must not wrap into a date before 1970
+    let dt = i64::try_from(timestamp)
+        .ok()
+        .and_then(|secs| DateTime::from_timestamp(secs, 0))
         .ok_or_else(|| tera::Error::msg("Invalid timestamp"))?
         .with_timezone(&Utc);
     // An invalid strftime specifier (e.g. "%Q") makes chrono's Display return an error, and
